@@ -57,15 +57,20 @@ def clsMigrateRenew (pre : State) : Op → Bool
          | none => false)
   | _ => false
 
-def classOf (pre : State) (op : Op) : String :=
-  if clsMigrateRenew pre op then "migrate-renew" else "none"
+/-- a residue of the package variable `sharesBeforeModified` is present when the step starts
+    (left by a failed or simulated staking message): the class of finding F06 -/
+def clsStaleGlobal (pre : Sys) : Bool := pre.global ≠ 0
+
+def classOf (pre : Sys) (op : Op) : String :=
+  if clsStaleGlobal pre then "stale-global"
+  else if clsMigrateRenew pre.st op then "migrate-renew" else "none"
 
 def checkState (e : Env) (s : State) : List (String × String) :=
   (violators e s).filterMap (fun (p, c, recs) => if recs.isEmpty then none else some (p, s!"clause={c} cls=genesis rec={recs}"))
 
-def checkStep (e : Env) (pre : State) (op : Op) (res : Res) (post : State) : List (String × String) :=
-  let vpre := violators e pre
-  let vpost := violators e post
+def checkStep (e : Env) (pre : Sys) (op : Op) (res : Res) (post : Sys) : List (String × String) :=
+  let vpre := violators e pre.st
+  let vpost := violators e post.st
   let cls := classOf pre op
   let stateHits := (vpost.zip vpre).filterMap (fun ((p, c, rpost), (_, _, rpre)) =>
     let fresh := rpost.filter (fun r => !rpre.contains r)
@@ -76,6 +81,8 @@ def checkStep (e : Env) (pre : State) (op : Op) (res : Res) (post : State) : Lis
    | .hang => [("C02", s!"clause=hang cls={match (step e pre op).1 with | .hang => "model-predicted" | _ => "unpredicted"}")]
    | .panic => [("C02", s!"clause=blocker-panic cls={cls}")]
    | _ => []) ++
-  (if isBlockEnd op && res = .ok && !timeoutPending post then [("C12", s!"clause=timeoutPending cls={cls}")] else [])
+  -- C03/C01: a package-variable residue is created by this step (it outlives the transaction)
+  (if pre.global = 0 && post.global ≠ 0 then [("C03", s!"clause=globalResidue cls={match res with | .ok => "ok-tx" | _ => "failed-tx"}")] else []) ++
+  (if isBlockEnd op && res = .ok && !timeoutPending post.st then [("C12", s!"clause=timeoutPending cls={cls}")] else [])
 
 end SaoVerif.Monitors
